@@ -19,6 +19,8 @@ def check(index, ctx):
              "reg_eps is the scalar multiplying an identity that is added to the normalised Gramian handed to the QP as P; "
              "pref_vector (or the uniform 1/m) is the lower bound h = -u of the QP; solver reaches solve_qp(solver=)")
     ctx.rule("R2", "on every returning path the weights are the output of solve_qp (UPGrad: summed over the axis indexing the projected vectors)")
+    ctx.rule("R3", "the configured preference vector / the input is what every call sees: nothing on a path of UPGrad/DualProj writes in place into a value that may share memory "
+             "with a constructor argument or with the matrix (so the second call solves the same QP as the first)")
     names = _agg.classes_named(index, ["UPGrad", "DualProj"], ctx, "R1")
     n = 0
     for name in names:
@@ -33,6 +35,10 @@ def check(index, ctx):
                     ctx.undecided("R1", pk, "path not fully typed: " + "; ".join(f"{e['loc']} {e.get('why', '')}" for e in unk[:3]), cls.loc())
                     continue
                 ev = r.events
+                for e in ev:
+                    if e["kind"] == "inplace" and e.get("alias"):
+                        ctx.violated("R3", f"{name}: {e['function'].split('.')[-1]}: {e['text']}",
+                                     f"`{e['text']}` writes in place into a value that may be (a view of) the configured preference vector or the input: a later call would project another vector", e["loc"])
                 # ---- norm_eps: THRESHOLD
                 thr = [e for e in ev if e["kind"] in ("scale_branch", "cmp") and ("norm_eps" in e.get("right_origin", []) or "norm_eps" in e.get("left_origin", []))]
                 def oriented_ev(e):
@@ -43,8 +49,11 @@ def check(index, ctx):
                     return e
 
                 thr = [oriented_ev(e) for e in thr]
+                # ... with the LARGEST singular value: the compared quantity is a max-reduction of the singular values (an element-wise test would zero
+                # individual directions of a matrix that is above the threshold)
+                maxes = {e2["id"] for e2 in ev if e2["kind"] == "sop" and e2["sop"] == "reduce" and e2.get("fn") in ("max", "amax") and any(o.startswith("svd_S#") for o in e2.get("in_origin", []))}
                 good = [e for e in thr if e["kind"] == "scale_branch" and e.get("left") == "1" and e.get("right_origin") == ["norm_eps"] and e.get("op") in ("Lt", "LtE")
-                        and any(o.startswith("svd_S#") for o in e.get("left_origin", []))]
+                        and any(o.startswith("svd_S#") for o in e.get("left_origin", [])) and (maxes & set(e.get("left_origin", [])))]
                 svd_raw = any(e["kind"] == "sop" and e["sop"] == "svd_S" and e["raw"] for e in ev)
                 ok = len(thr) >= 1 and len(good) == len(thr) and svd_raw
                 why = ""
@@ -53,7 +62,7 @@ def check(index, ctx):
                     why = "norm_eps is never compared with the singular values" + (f"; the singular-value test at {crossed[0]['loc']} `{crossed[0]['text']}` uses {crossed[0].get('right_origin')}" if crossed else "")
                 elif len(good) != len(thr):
                     b = [e for e in thr if e not in good][0]
-                    why = f"norm_eps is compared at {b['loc']} `{b['text']}` with a degree-{b.get('left')} value of origin {b.get('left_origin')} (expected: the largest singular value, degree 1)"
+                    why = f"norm_eps is compared at {b['loc']} `{b['text']}` with a degree-{b.get('left')} value of origin {b.get('left_origin')} (expected: the largest singular value — a max over the singular values —, degree 1)"
                 ctx.require(ok, "R1", f"{name}: norm_eps is the singular-value threshold" if not ok else pk + " norm_eps",
                             "norm_eps compared with the largest singular value", why, (thr[0]["loc"] if thr else cls.loc()))
                 # ---- reg_eps: REGULARISER, P of the QP
